@@ -98,6 +98,11 @@ func (hf *HostTagFetcher) Fetch(req *bfe_basic.Request) (interface{}, error) {
 	if req == nil {
 		return nil, fmt.Errorf("fetcher: nil pointer")
 	}
+
+	if req.Route.HostTag == "" {
+		return nil, fmt.Errorf("fetcher: host tag not found")
+	}
+
 	return req.Route.HostTag, nil
 }
 
@@ -239,7 +244,12 @@ func (q *QueryValueFetcher) Fetch(req *bfe_basic.Request) (interface{}, error) {
 		return nil, fmt.Errorf("fetcher: nil pointer")
 	}
 
-	return req.CachedQuery().Get(q.key), nil
+	values := req.CachedQuery()[q.key]
+	if len(values) == 0 {
+		return nil, fmt.Errorf("fetcher: query not found")
+	}
+
+	return values[0], nil
 }
 
 type QueryExistMatcher struct{}
@@ -313,7 +323,12 @@ func (r *HeaderValueFetcher) Fetch(req *bfe_basic.Request) (interface{}, error) 
 		return nil, fmt.Errorf("fetcher: nil pointer")
 	}
 
-	return req.HttpRequest.Header.Get(r.key), nil
+	values := req.HttpRequest.Header.Values(r.key)
+	if len(values) == 0 {
+		return nil, fmt.Errorf("fetcher: header not found")
+	}
+
+	return values[0], nil
 }
 
 type BypassMatcher struct{}
@@ -590,7 +605,12 @@ func (uaf *UAFetcher) Fetch(req *bfe_basic.Request) (interface{}, error) {
 		return nil, fmt.Errorf("fetcher: nil pointer")
 	}
 
-	return req.HttpRequest.Header.Get("User-Agent"), nil
+	values := req.HttpRequest.Header.Values("User-Agent")
+	if len(values) == 0 {
+		return nil, fmt.Errorf("fetcher: user agent not found")
+	}
+
+	return values[0], nil
 }
 
 type ResHeaderKeyInFetcher struct {
@@ -621,7 +641,12 @@ func (r *ResHeaderValueFetcher) Fetch(req *bfe_basic.Request) (interface{}, erro
 		return nil, fmt.Errorf("fetcher: nil pointer")
 	}
 
-	return req.HttpResponse.Header.Get(r.key), nil
+	values := req.HttpResponse.Header.Values(r.key)
+	if len(values) == 0 {
+		return nil, fmt.Errorf("fetcher: header not found")
+	}
+
+	return values[0], nil
 }
 
 type ResCodeFetcher struct{}
